@@ -2,7 +2,7 @@
 CFG = {
     "translator": True,
     "count": {"quick": 48000, "thorough": 2400000},
-    "lean_files": ["GeoModel/Intersects.lean", "GeoModel/Contains.lean", "GeoModel/Locate.lean", "GeoModel/Segment.lean",
+    "lean_files": ['GeoModel/Gen/Kernel.lean', 'GeoProofs/Lemmas/GenKernel.lean', "GeoModel/Intersects.lean", "GeoModel/Contains.lean", "GeoModel/Locate.lean", "GeoModel/Segment.lean",
                    "GeoModel/RelateSpec.lean", "GeoModel/Valid.lean", "GeoModel/Gen/Masks.lean", "GeoModel/Gen/Enums.lean",
                    "GeoModel/Ops/C02.lean", "GeoProofs/Lemmas/SegmentSpec.lean", "GeoProofs/Lemmas/RingSpec.lean",
                    "GeoProofs/Lemmas/LocateLemmas.lean"],
